@@ -16,7 +16,8 @@
      arbitrary split search `find`; the theorems about it therefore hold for both trees, for every
      bootstrap weight vector `samples` and every choice of tried features (random forest, C06). *)
 From Coq Require Import List Arith ZArith Bool Reals Lra Floats Lia.
-From SC Require Import Base.Num C05.Model C05.ProofsGrow C05.ProofsReg C05.ProofsCls C05.ProofsSort.
+From SC Require Import Base.Num C05.Model C05.ProofsGrow C05.ProofsReg C05.ProofsCls C05.ProofsSort
+                       C05.ProofsSorted C05.ProofsEndToEnd.
 Import ListNotations.
 Local Open Scope nat_scope.
 
@@ -141,15 +142,85 @@ Theorem C05_argsort_perm_partial : forall T (O : Ops T) (col : list T) idx,
   quick_argsort O col = Some idx -> Permutation.Permutation idx (seq 0 (length col)).
 Proof. exact @quick_argsort_perm. Qed.
 
-(* The sortedness half is NOT proved (the invariant of the explicit-stack median-of-three quicksort
-   was not finished in the time available).  It is the hypothesis `sorted_order` of the two
-   leaf-value theorems; the correspondence check evaluates it (`orders_okb` in C05/Corr.v) on the
-   orders the model computes for every whole-tree case, and compares the model's argsort with the
-   implementation's on vectors with heavy ties. *)
-Definition C05_argsort_perm_sorted_full_statement : Prop :=
-  forall (col : list R) idx, quick_argsort ROps col = Some idx ->
+(* argsort_perm_sorted, full statement (exact reals): whenever the transliterated explicit-stack
+   median-of-three quicksort (insertion sort below 7 elements) returns, its index vector is a
+   permutation of 0..n-1 AND sorts the column.  Proof: C05/ProofsSorted.v (loop invariant over the
+   pending ranges of the explicit stack). *)
+Theorem C05_argsort_perm_sorted : forall (col : list R) idx, quick_argsort ROps col = Some idx ->
     Permutation.Permutation idx (seq 0 (length col)) /\
     forall i j, i <= j < length col -> (nth (nth i idx 0%nat) col 0 <= nth (nth j idx 0%nat) col 0)%R.
+Proof. exact quick_argsort_sorted. Qed.
+
+(* hence every order computed by fit_weak_learner satisfies the hypothesis `sorted_order` of the two
+   leaf-value theorems above *)
+Theorem C05_argsort_columns_sorted : forall (x : list (list R)) p order,
+  argsort_columns ROps x p = Some order ->
+  length order = p /\ forall j, j < p -> sorted_order x j (nth j order []).
+Proof. exact argsort_columns_sorted. Qed.
+
+(* End-to-end leaf-value theorems: the functions that compute the orders themselves, no hypothesis
+   on the orders.  `_weak` = fit_weak_learner with arbitrary sample counts and tried features (the
+   random forest's calls; the tried features must be column indices), `_fit` = DecisionTree*::fit
+   (all counts 1, all features tried), where the sample vector of a node is the 0/1 indicator of
+   the training rows routed to it. *)
+Theorem C05_leaf_value_regression_weak : forall x y samples vars md msl mss nodes d,
+  length y = length x -> length samples = length x ->
+  (forall id j, In j (vars id) -> j < length (hd [] x)) ->
+  fit_regressor_weak ROps x y samples vars md msl mss = Some (nodes, d) ->
+  exists G D, tree_consistent ROps 0%R x msl (reg_out_ok x y) samples nodes G D /\
+    (forall i k, i < length x -> k < length nodes ->
+      (route ROps nodes (nth i x []) k -> nth i (G k) 0 = nth i samples 0) /\
+      (~ route ROps nodes (nth i x []) k -> nth i (G k) 0 = 0)) /\
+    forall k, k < length nodes -> 0 < sum_nat (G k) ->
+      (output (nth k nodes (dnode 0%R)) * IZN (sum_nat (G k)) =
+       rsum (fun i => IZN (nth i (G k) 0%nat) * nth i y 0) (seq 0%nat (length x)))%R.
+Proof. exact leaf_value_regression_weak. Qed.
+
+Theorem C05_leaf_value_regression_fit : forall x y md msl mss nodes d,
+  length y = length x ->
+  fit_regressor ROps x y md msl mss = Some (nodes, d) ->
+  exists G D, tree_consistent ROps 0%R x msl (reg_out_ok x y) (repeat 1 (length x)) nodes G D /\
+    (forall i k, i < length x -> k < length nodes ->
+      (route ROps nodes (nth i x []) k -> nth i (G k) 0 = 1) /\
+      (~ route ROps nodes (nth i x []) k -> nth i (G k) 0 = 0)) /\
+    forall k, k < length nodes -> 0 < sum_nat (G k) ->
+      (output (nth k nodes (dnode 0%R)) * IZN (sum_nat (G k)) =
+       rsum (fun i => IZN (nth i (G k) 0%nat) * nth i y 0) (seq 0%nat (length x)))%R.
+Proof. exact leaf_value_regression_fit. Qed.
+
+(* classification: `yi` is the vector of class indices of the training rows (classes[yi[i]] = y[i]);
+   every node's output is a class index with maximal count among the rows routed to the node, and
+   the label reported for it is classes[output] (C05_labels_are_originals: one of the labels in y) *)
+Theorem C05_leaf_value_classification_weak : forall lg2 crit x y samples vars md msl mss classes nodes d,
+  length y = length x -> length samples = length x ->
+  (forall id j, In j (vars id) -> j < length (hd [] x)) ->
+  fit_classifier_weak ROps lg2 crit x y samples vars md msl mss = Some (classes, nodes, d) ->
+  exists yi, length yi = length x /\
+    (forall i, i < length x -> nth i yi 0 < length classes /\ nth (nth i yi 0) classes 0%R = nth i y 0%R) /\
+    exists G D, tree_consistent ROps 0 x msl (cls_out_ok x yi (length classes)) samples nodes G D /\
+      (forall i n, i < length x -> n < length nodes ->
+        (route ROps nodes (nth i x []) n -> nth i (G n) 0 = nth i samples 0) /\
+        (~ route ROps nodes (nth i x []) n -> nth i (G n) 0 = 0)) /\
+      forall n, n < length nodes ->
+        output (nth n nodes (dnode 0)) < length classes /\
+        forall c, nth c (cvec x yi (length classes) (G n)) 0 <=
+                  nth (output (nth n nodes (dnode 0))) (cvec x yi (length classes) (G n)) 0.
+Proof. exact leaf_value_classification_weak. Qed.
+
+Theorem C05_leaf_value_classification_fit : forall lg2 crit x y md msl mss classes nodes d,
+  length y = length x ->
+  fit_classifier ROps lg2 crit x y md msl mss = Some (classes, nodes, d) ->
+  exists yi, length yi = length x /\
+    (forall i, i < length x -> nth i yi 0 < length classes /\ nth (nth i yi 0) classes 0%R = nth i y 0%R) /\
+    exists G D, tree_consistent ROps 0 x msl (cls_out_ok x yi (length classes)) (repeat 1 (length x)) nodes G D /\
+      (forall i n, i < length x -> n < length nodes ->
+        (route ROps nodes (nth i x []) n -> nth i (G n) 0 = 1) /\
+        (~ route ROps nodes (nth i x []) n -> nth i (G n) 0 = 0)) /\
+      forall n, n < length nodes ->
+        output (nth n nodes (dnode 0)) < length classes /\
+        forall c, nth c (cvec x yi (length classes) (G n)) 0 <=
+                  nth (output (nth n nodes (dnode 0))) (cvec x yi (length classes) (G n)) 0.
+Proof. exact leaf_value_classification_fit. Qed.
 
 (* Extensions that are stated but not proved; they are covered by the failing-input search only
    (brute-force best split at every internal node, completeness of the growth, x 2^k invariance). *)
@@ -210,6 +281,18 @@ Qed.
 Example C05_argsort_instance :
   quick_argsort FOps [3; 1; 2; 1; 5; 0; 4; 1; 9; 2]%float = Some [5; 7; 3; 1; 9; 2; 0; 6; 4; 8].
 Proof. vm_compute. reflexivity. Qed.
+
+(* exact-real instance of the hypothesis of C05_argsort_perm_sorted (3 values: insertion-sort path;
+   the partition path is exercised by the binary64 instance above with 10 values) *)
+Example C05_argsort_real_instance : quick_argsort ROps [3; 1; 2]%R = Some [1; 2; 0].
+Proof.
+  unfold quick_argsort. cbn -[Rleb].
+  repeat (repeat match goal with
+          | |- context [Rleb ?a ?b] =>
+              first [rewrite (proj2 (Rleb_true a b)) by lra | rewrite (proj2 (Rleb_false a b)) by lra]
+          end; cbn -[Rleb]).
+  reflexivity.
+Qed.
 
 Example C05_sorted_order_instance : sorted_order [[3];[1];[2]]%R 0 [1; 2; 0].
 Proof.
